@@ -131,13 +131,13 @@ PROPS['C18'] = {
                   'parse_goals.rs::make_goal', 'parse_goals.rs::make_goal_no_args', 'parse_goals.rs::parse_operator_goal', 'parse_goals.rs::parse_subgoal',
                   's_complex.rs::validate_complex', 's_complex.rs::parse_functor_terms', 's_complex.rs::parse_complex', 's_complex.rs::parse_query',
                   'built_in_functions.rs::parse_function', 'rule.rs::index_of_neck', 'rule.rs::parse_rule',
-                  's_linked_list.rs::parse_linked_list', 's_linked_list.rs::link_front',
+                  's_linked_list.rs::parse_linked_list', 's_linked_list.rs::link_front', 'logic_var.rs::make_logic_var', 'logic_var.rs::mlv_error',
                   'parse_terms.rs::cq_error', 'parse_terms.rs::mt_error', 's_linked_list.rs::pll_error', 'parse_goals.rs::iop_error', 'rule.rs::pr_error'],
     'oracles': {'rule.rs::parse_rule': 'c18_parsers:parse_rule', 's_complex.rs::parse_query': 'c18_parsers:parse_query',
                 'parse_terms.rs::parse_arguments': 'c18_parsers:parse_complex', 'parse_goals.rs::parse_subgoal': 'c18_parsers:parse_subgoal',
                 '*': 'c18_parsers'},
     'not_covered': [
-        'TRUSTED, not yet under proof (external_body stubs with the contract "returns, does not panic"): make_logic_var, generate_goal and the tokenizer behind it (tokenize, group_tokens, group_and_tokens, group_or_tokens, token_tree_to_goal), make_query',
+        'TRUSTED, not yet under proof (external_body stubs with the contract "returns, does not panic"): generate_goal and the tokenizer behind it (tokenize, group_tokens, group_and_tokens, group_or_tokens, token_tree_to_goal), make_query',
         'termination of the mutual recursion (parse_term -> make_term -> parse_complex/parse_function/parse_linked_list -> parse_arguments -> make_term; parse_subgoal <-> parse_operator_goal): each call is on a strictly shorter text, but that measure is not machine-checked (exec_allows_no_decreases_clause); every loop inside the proved functions has a decreases clause',
         'texts of 2^31 characters or more (bracket depths and positions are kept in i32)',
     ],
